@@ -1,5 +1,6 @@
 #!/bin/sh
 # MANIFEST.setup_cmd: build the framework from files on disk only (offline).
-set -e
-cd /verif/harness && cargo build --release 2>&1 | tail -3
-cd /verif/lean && lake build 2>&1 | tail -3
+# Every check rebuilds what it needs itself; this only warms the caches.
+cd /verif || exit 1
+python3 ./check --setup
+exit 0
